@@ -69,6 +69,7 @@ impl crate::entity::Identifier {
 }
 
 /// Fork/join seam used by the schedule runner instead of `rayon::join`.
+#[cfg(feature = "rayon")]
 pub mod shim {
     use core::sync::atomic::{
         AtomicUsize,
